@@ -56,6 +56,7 @@ THEOREMS = [
     "NfcVerif.C16.isodep_session_silent_after_error",
     "NfcVerif.C16.read_nak_reactivation",
     "NfcVerif.C16.t2_silent_when_gone",
+    "NfcVerif.C16.t2_protectpw_silent_when_gone",
     "NfcVerif.C16.unknown_commerror_counterexample",
     "NfcVerif.C16.presence_check_not_retried",
     "NfcVerif.C16.lost_answer_write_twice",
@@ -375,9 +376,13 @@ def sim_memory(sim):
 def one_op(air, tag, op):
     """perform `op`, -> canonical outcome"""
     _current[0] = air
+    air.wrong_data = None
     try:
         with contextlib.redirect_stdout(io.StringIO()):
-            out = "ok " + classify(perform(tag, op))
+            r = perform(tag, op)
+            if op == "ndef" and r is not None and air.sim.ndef_now() is not None and bytes(r.octets) != air.sim.ndef_now():
+                air.wrong_data = bytes(r.octets)
+            out = "ok " + classify(r)
     except Exception as e:  # noqa
         out = "exc " + exc_name(e)
     finally:
@@ -439,7 +444,7 @@ def execute(kind, op, script, prepare=None, senses="", pre_ndef=False):
         return {"out": out, "invs": invs, "invraw": raws, "n": sum(1 for e in air.log if e != "|" and e[0] not in "!?"),
                 "applied": list(sim.applied[app_lo:]), "raw": list(air.raw), "mem": sim_memory(sim), "nret": nret, "sim": sim,
                 "flags": flags_of(kind, air, tag), "blind": sum(1 for e in air.log if e != "|" and e[0] == "?"),
-                "stale": list(air.stale), "sensed": air.sensed}
+                "stale": list(air.stale), "sensed": air.sensed, "wrong": air.wrong_data}
 
 
 def execute_session(kind, ops, scripts, senses):
@@ -464,7 +469,7 @@ def execute_session(kind, ops, scripts, senses):
             res.append({"out": out, "invs": invs, "invraw": raws, "applied": list(sim.applied[app_lo:]),
                         "used": (sc + "a" * used)[:used], "sensed": air.sensed, "flags": flags_of(kind, air, tag),
                         "blind": sum(1 for e in air.log[lo:] if e != "|" and e[0] == "?"),
-                        "stale": list(air.stale[stale_lo:]),
+                        "stale": list(air.stale[stale_lo:]), "wrong": air.wrong_data,
                         "errs": [e[1] for e in air.log[lo:] if e != "|" and e[0] == "!"],
                         "frames": [e for e in air.log[lo:] if e != "|" and e[0] not in "!?"]})
         return res, sim_memory(sim), (tag._dep.n_retry_nak if family(kind) == "t4" else 0)
@@ -669,6 +674,7 @@ def probe_cfg():
 
 
 NOSTATUS = {"rr", "sc", "rq", "ss0", "ss1", "ss2", "ss3"}
+NORAISE = {"present": "False", "sig": "32 zero octets"}     # documented result when the communication fails
 BUDGET = 3
 
 
@@ -769,6 +775,8 @@ def oracle_outcome(ck, kind, op, script, out, invs, what, replay, after_gone=Fal
             ck.fail(finding_key(kind, op, name, script, invs), what + "raises " + name, replay)
         else:
             errno = int(name[16:-1])
+            if op in NORAISE:
+                ck.fail("%s-raises-tagcommanderror" % op, what + "raises TagCommandError(%d), documented is %s" % (errno, NORAISE[op]), replay)
             last = [e for inv in invs for e in inv if e[0] not in "!?"]
             # the tag object has given up before (Type 2 target gone: TIMEOUT_ERROR, ISO-DEP: the stored code)
             given_up = (after_gone and errno == 0) or (sticky is not None and errno == sticky)
@@ -785,6 +793,14 @@ def oracle_outcome(ck, kind, op, script, out, invs, what, replay, after_gone=Fal
     else:
         if out[3:] not in DOCUMENTED[op]:
             ck.fail("undocumented-result", what + "returns " + out[3:], replay)
+
+
+def wrong_data_counts(invs):
+    """NDEF data that differs from the tag content is a failure when it was read in this operation (not handed out from
+    the cache) - except when the second SECTOR SELECT frame was lost: the tag acknowledges that frame by silence, a lost
+    frame cannot be told from an acknowledged one and the following READs are answered from the old sector (inherent)"""
+    ex = [e for inv in invs for e in inv if e[0] not in "!?"]
+    return bool(ex) and not any(e[0] == "s2" and e[1] in "txpoc" for e in ex)
 
 
 def oracle_calls(ck, kind, op, invs, raws, nret, what, replay):
@@ -817,7 +833,7 @@ def oracle_calls(ck, kind, op, invs, raws, nret, what, replay):
         tok = ex[0][0]
         if prev is not None and prev == raw and (tok[0] in "wW" or tok.startswith("up")):
             ck.fail("write-repeated-after-answer", what + "write command %s was answered and is sent again" % tok, replay)
-        prev = raw if ex[-1][1] == "a" and not any(e[0] == "!" for e in inv) else None
+        prev = raw if ex[-1][1] == "a" else None
 
 
 def oracle(ck, plan, script, r, senses=""):
@@ -833,6 +849,8 @@ def oracle(ck, plan, script, r, senses=""):
     if r["stale"]:
         ck.fail("t4-stale-answer", what + "answer %s accepted for command %s which the card has not executed"
                 % (r["stale"][0][1].hex() if r["stale"][0][1] else None, r["stale"][0][0].hex()), replay)
+    if r["wrong"] is not None and wrong_data_counts(r["invs"]):
+        ck.fail("ndef-data-not-from-tag", what + "returns NDEF data %s.. which the tag does not hold" % r["wrong"][:12].hex(), replay)
     if kind not in L3ONLY:
         oracle_calls(ck, kind, op, r["invs"], r["invraw"], r["nret"], what, replay)
     # a train of bursts, each within the budget and separated by two answers, is invisible
@@ -880,8 +898,10 @@ def same_line(fam, real, rep):
     if fam != "t1":
         return real == rep
     a, b = real.split(" # "), rep.split(" # ")
-    if len(a) != len(b) or len(a) < 3:
+    if len(a) != len(b):
         return False
+    if len(a) < 3:
+        return a == b
     return a[:2] == b[:2] and norm_t1(a[2]) == norm_t1(b[2]) and a[3:] == b[3:]
 
 
@@ -908,15 +928,23 @@ def session_ops(kind):
             d["auth"] = (0, "none", 1, 0, 0)
         if kind == "ulc":
             d["auth"] = (0, "none", 1, 0, 0)
+        if kind in ("ulc", "ntag213", "ntag210"):
+            d["protectpw"] = (0, "none", 1, 1, 0)
         return d
-    # Type 1 / Type 3: no link state in the tag object; sessions are judged by the oracle only
-    # (Type 1 dump() inverts and restores every block of a dynamic tag to find the end of memory: it changes content)
-    d = {"ndef": (1, "none", 0, 0, 1), "write": (1, "none", 0, 1, 1), "present": (0, "none", 0, 0, 0),
-         "dump": (0, "none", 0, 1 if fam == "t1" else 0, 0)}
-    return d
+    # Type 1 / Type 3: no link state in the tag object, only the NDEF cache
+    # (Type 1 dump() inverts and restores every block of a dynamic tag to find the end of memory: it changes content;
+    # a Type 3 write sends the same commands whatever the tag holds)
+    if fam == "t1":
+        return {"ndef": (1, "none", 0, 0, 1), "write": (1, "none", 0, 1, 1), "present": (0, "none", 0, 0, 0),
+                "dump": (0, "none", 0, 1, 0), "rbyte": (0, "none", 0, 0, 0), "wbyte": (0, "none", 0, 1, 0)}
+    return {"ndef": (1, "none", 0, 0, 1), "write": (1, "none", 0, 1, 0), "present": (0, "none", 0, 0, 0),
+            "dump": (0, "none", 0, 0, 0), "rdsvc": (0, "none", 0, 0, 0)}
 
 
-SESSION_TIED = {"t2", "ul", "ulc", "ntag203", "ntag213", "ntag210", "t4", "t4b", "t4slow"}
+# sessions compared with the model; not: tags with several sectors (the selected sector is state of the tag object the
+# command sequences depend on), FeliCa Lite (the system code the tag object has polled for is such state)
+SESSION_TIED = {"t2", "ul", "ulc", "ntag203", "ntag213", "ntag210", "t4", "t4b", "t4slow",
+                "t1s", "t1d", "topaz", "topaz512", "t3", "t3std"}
 
 
 def fatal_scripts(kind, nret, n, rng, thorough):
@@ -971,9 +999,11 @@ def run_sessions(ck, model, cfg, rng, plans):
         return memo[key]
 
     for kind in rs.KINDS:
-        if kind in L3ONLY or kind in ("t2big", "nt3h"):
+        if kind in L3ONLY:
             continue
         table = session_ops(kind)
+        if kind in ("t2big", "nt3h"):
+            table = {k: v for k, v in table.items() if k not in ("wr5",)}
         fam = family(kind)
         names = sorted(table)
         try:
@@ -992,14 +1022,16 @@ def run_sessions(ck, model, cfg, rng, plans):
         if fam in ("t2", "t4"):
             # three operations: cache and link state carried over two boundaries
             third = [x for x in ("ndef", "write", "write2", "present", "dump") if x in table]
-            seqs += [(a, b, c) for a in names for b in third for c in third if rng.random() < (0.5 if ck.thorough else 0.08)]
-        if not ck.thorough and (kind not in SESSION_TIED or kind in SECONDARY):
+            seqs += [(a, b, c) for a in names for b in third for c in third if rng.random() < (0.3 if ck.thorough else 0.08)]
+        if kind in ("t2big", "nt3h"):
+            seqs = [s for s in seqs if rng.random() < (0.3 if ck.thorough else 0.06)]     # long operations
+        elif not ck.thorough and (family(kind) in ("t1", "t3") or kind in SECONDARY):
             seqs = [s for s in seqs if rng.random() < 0.3]
         for ops in seqs:
             n1 = pl[ops[0]][0].n
             firsts = fatal_scripts(kind, pl_ndef.base["nret"], n1, rng, ck.thorough)
             # the tag leaves the field after a NAK: sense results for the first operation that meets one
-            naks = [i for i, o in enumerate(ops) if any(a == "n" for _, a in steps_of(kind, pl[o][0].base))]
+            naks = [i for i, o in enumerate(ops) if o == "protectpw" or any(a == "n" for _, a in steps_of(kind, pl[o][0].base))]
             for s1 in firsts:
                 seconds = follow_scripts(max(pl[ops[1]][0].n, pl[ops[1]][1].n), rng, ck.thorough)
                 for s2 in seconds:
@@ -1049,6 +1081,8 @@ def one_session(ck, kind, ops, scripts, senses, table, pl, pl_ndef, ref_mem, cfg
             ck.fail("t4-stale-answer-after-error" if fatal is not None else "t4-stale-answer",
                     w + "returned the answer %s for command %s which the card has not executed"
                     % (r["stale"][0][1].hex() if r["stale"][0][1] else None, r["stale"][0][0].hex()), replay)
+        if r["wrong"] is not None and wrong_data_counts(r["invs"]) and not any(table[o][3] for o in ops[:i]):
+            ck.fail("ndef-data-not-from-tag", w + "returns NDEF data %s.. which the tag does not hold" % r["wrong"][:12].hex(), replay)
         if fam == "t4" and fatal is not None and any(e[0] != "nak" or op != "present" for e in r["frames"]):
             ck.fail("t4-command-after-unrecoverable-error", w + "sent %s after an earlier operation had ended with the unrecoverable error %d"
                     % (" ".join("%s.%s" % e for e in r["frames"][:6]), fatal), replay)
